@@ -1,7 +1,9 @@
 """Generators for the file properties C09 (operation histories), C33 and C34 (nested file values).
 
 C09 history case
-  {"init": {path: content_id}, "ops": [op, ...]}
+  {"init": {path: content_id}, "links": [directory-entry symlink, ...], "ops": [op, ...]}
+  links: which of R.DIRLINKS (a symbolic link below the directory pointing to a file outside it /
+         to a sibling) exist; "links" missing = none (older replay files)
   op = ["write", file, content_id]            create or overwrite (same-size / different-size)
      | ["utime_seen", target, k]              set mtime_ns to the k-th mtime (mod n) at which this
                                               target was hashed earlier (else: any mtime seen so far)
@@ -39,9 +41,13 @@ def histories(draw, max_steps=12):
     if not init:
         init[R.FILES[0]] = 0
     exists = set(init)
+    links = [ln for ln in R.DIRLINKS if draw(st.integers(0, 2)) > 0]
     focus = draw(st.sampled_from(R.TARGETS))
     if focus in R.DIRS:
+        # everything the directory shows: the files below it and the files its links point to
         group = [p for p in R.FILES if p.startswith(focus + "/")]
+        group += [R.DIRLINKS[ln][0] for ln in links
+                  if ln.startswith(focus + "/") and R.DIRLINKS[ln][0] not in group]
     else:
         group = [R.LINKS.get(focus, focus)]
     n = draw(st.integers(4, max_steps))
@@ -90,7 +96,7 @@ def histories(draw, max_steps=12):
     # every history ends by hashing the focus (so that the last change is observed)
     ops.append(["hash", focus, draw(st.sampled_from(HASH_MODES[:4]))])
     assert nfiles
-    return dict(init=init, ops=ops)
+    return dict(init=init, links=links, ops=ops)
 
 
 # ----------------------------------------------------------------------------- C33 / C34
